@@ -185,8 +185,13 @@ def validate(traces, report, name, max_steps=6000, max_ev=300, timeout=900, work
     path = os.path.join(d, "traces.ndjson")
     tlc.write_ndjson(path, traces)
     res = tlc.run_tlc("BFTrace", env={"CASES": path, "MAXSTEPS": max_steps, "MAXEV": max_ev},
-                      workers=workers or max(2, NCPU - 2), timeout=timeout)
+                      workers=workers or max(2, NCPU - 2), timeout=timeout, coverage=True)
     report.add_tlc(res)
+    # per-action counts of the canonical machine (TLC -coverage): an action never taken was never exercised
+    ac = report.coverage.setdefault("bf_action_coverage", {})
+    for name, (distinct, total) in res.coverage.items():
+        if name.startswith("Observe(") and name.endswith(")"):
+            ac[name[8:-1]] = ac.get(name[8:-1], 0) + total
     verdicts = {}
     for r in res.records:
         if isinstance(r, dict) and "verdict" in r:
